@@ -26,6 +26,8 @@ def run(ctx):
     for inv in ("FrameHoldsExactlyStepUpdates", "LoadedTimesAreFrameTimes", "UndisturbedRunLoads"):
         ctx.model_check("TdglRun", rf.model_cfg(small, rf.PINNED, [inv]), name=f"TdglRun[pinned mechanism, {inv}]",
                         expect_violation=inv, count=False)
+    if not ctx.quick:
+        rf.apalache_inductive(ctx)      # all k, all run lengths (counters abstraction); optional extra
     # 2. spec -> code: every behaviour (sampled in quick) is replayed against the real solve()
     eb = b if not ctx.quick else b
     if not ctx.quick:
